@@ -208,12 +208,28 @@ impl SkinHeaderT for SkinHeader {
         let submeshes = M2Array::parse(reader)?;
         let batches = M2Array::parse(reader)?;
 
-        // For BfA and later, we have additional fields
+        // For BfA and later, we have additional fields (16 bytes). Legion uses the
+        // same version number without them, so check whether they fit between the
+        // array references and the first array data (or the end of the file when
+        // no array holds data).
         let (center_position, center_bounds) = if version >= 4 {
+            let header_end = reader.stream_position()?;
             let file_size = reader.seek(SeekFrom::End(0))?;
+            reader.seek(SeekFrom::Start(header_end))?;
 
-            // If we have more data, it's probably BfA or later
-            if file_size > reader.stream_position()? {
+            let first_data = [
+                (indices.count, indices.offset),
+                (triangles.count, triangles.offset),
+                (bone_indices.count, bone_indices.offset),
+                (submeshes.count, submeshes.offset),
+                (batches.count, batches.offset),
+            ]
+            .into_iter()
+            .filter(|&(count, _)| count > 0)
+            .map(|(_, offset)| u64::from(offset))
+            .fold(file_size, u64::min);
+
+            if first_data >= header_end + 16 {
                 let mut center_pos = [0.0; 3];
                 for item in &mut center_pos {
                     *item = reader.read_f32_le()?;
